@@ -140,6 +140,12 @@ def make_imager(cfg):
     check_config(cfg)
     k, kp = kernel_of(cfg)
     w, wp = weight_of(cfg)
+    if cfg.get("defaults"):
+        # weight, kernel and their parameters left at the library's defaults (persistence n=1, unit Gaussian)
+        if cfg["kernel"] != "iso-matrix" or float(cfg["var"]) != 1.0 or cfg["weight"] != "persistence":
+            raise InvalidCase("defaults")
+        return PI(birth_range=(float(cfg["birth_range"][0]), float(cfg["birth_range"][1])),
+                  pers_range=(float(cfg["pers_range"][0]), float(cfg["pers_range"][1])), pixel_size=float(cfg["pixel_size"]))
     return PI(birth_range=(float(cfg["birth_range"][0]), float(cfg["birth_range"][1])),
               pers_range=(float(cfg["pers_range"][0]), float(cfg["pers_range"][1])),
               pixel_size=float(cfg["pixel_size"]), weight=w, weight_params=wp, kernel=k, kernel_params=kp)
